@@ -302,6 +302,32 @@ def sweep_corpus_digits(job: dict) -> dict:
     return col.dump()
 
 
+def sweep_opentherm(job: dict) -> dict:
+    """Every OpenTherm data-id x message type x boundary value (correct parity): what decodes is held to the payload rules, and decodes
+    the same on a second decode and after a different line."""
+    from vf.env.quiet import quiet_logs
+    from vf.gen import frames as G
+    from vf.props.c02 import parse_components
+
+    quiet_logs()
+    col = Collector()
+    prev = None
+    for ln in G.opentherm_lines(job["lo"], job["hi"]):
+        f = parse_components(ln[4:])
+        f["line"] = ln
+        st_, payload, pkt = decode(ln)
+        col.case(nt=(f["verb"], f["code"], f["payload"]) if st_ == "ok" else None, classes=["ot-grid", f"ot-grid-decode:{st_.split(':')[0]}"], sample={"line": ln, "status": st_})
+        if st_ == "ok":
+            check_payload(col, f, payload, pkt)
+            if prev is not None:
+                decode(prev)
+            st2, payload2, _ = decode(ln)
+            if st2 != "ok" or canon(payload2) != canon(payload):
+                col.violation({"clause": "non-deterministic", "how": "repeat-after-other", "code": "3220"}, {"line": ln, "after": prev}, f"{canon(payload)[:200]} vs {st2} {canon(payload2)[:200]}")
+        prev = ln
+    return col.dump()
+
+
 # --- arrays -----------------------------------------------------------------------------------
 ARRAY_CODES = {
     # code: (element regex tail after the 2-char index, element total hex len, sources [(shape, src type)])
@@ -514,6 +540,7 @@ def run(ctx: Ctx, col: Collector) -> None:
     ctx.parallel(explore_single, ctx.shards(ctx.n(30_000, 1_000_000)), col)
     ctx.parallel(explore_mutants, ctx.shards(ctx.n(24_000, 800_000)), col)
     ctx.parallel(sweep_corpus_digits, [{"lo": i, "step": ctx.workers} for i in range(ctx.workers)], col)
+    ctx.parallel(sweep_opentherm, [{"lo": a, "hi": a + 16} for a in range(0, 256, 16)], col)
     ctx.parallel(explore_arrays, ctx.shards(ctx.n(8_000, 300_000)), col)
     ctx.parallel(explore_orders, ctx.shards(ctx.n(640, 16_000), per_shard_min=10), col)
     ctx.parallel(explore_gateway, ctx.shards(ctx.n(320, 12_000), per_shard_min=10), col)
